@@ -225,7 +225,7 @@ def run(tier, seed, verdict):
     quick = tier != "thorough"
     runs = [runner.ExportRun("MC_NixValidate", "MC_C14_quick.cfg", seed, "harness.c14", label=label, tlc_workers=1),
             runner.ExportRun("MC_NixValidate", "MC_C14_pairs_quick.cfg" if quick else "MC_C14.cfg", seed + 1, "harness.c14",
-                             label=label, stride=12 if quick else 6,
+                             label=label, stride=20 if quick else 6,
                              accept=lambda v: len(v["cfg"]["inj"]) == 2)]
     return runner.assemble(
         "C14", verdict, runs,
